@@ -287,3 +287,121 @@ class scheduler_passes_constraints_contract:
 
     def canary(sh, a, ret):
         check("canary: always the last candidate", ret is SW["yields"][-1] and sh["n"] > 1)
+
+
+# =====================================================================================
+# the dart-scheduler pattern: whichever schedule it writes into the IR was selected under ALL the constraints
+# =====================================================================================
+import numpy as np  # noqa: E402
+from pyvc.api import mk_memref_value  # noqa: E402
+from xdsl.dialects.builtin import AffineMapAttr, ArrayAttr, IntegerType, MemRefType, NoneAttr  # noqa: E402
+from xdsl.ir import Block, Region  # noqa: E402
+from xdsl.ir.affine import AffineMap  # noqa: E402
+from xdsl.pattern_rewriter import PatternRewriter  # noqa: E402
+
+import snaxc.ir.dart.scheduler as sched_mod  # noqa: E402
+import snaxc.transforms.dart.dart_scheduler as ds  # noqa: E402
+from snaxc.accelerators.snax import SNAXStreamer  # noqa: E402
+from snaxc.accelerators.streamers.streamers import Streamer, StreamerConfiguration, StreamerType  # noqa: E402
+from snaxc.dialects import dart  # noqa: E402
+from snaxc.ir.dart.access_pattern import Schedule, SchedulePattern, Template, TemplatePattern  # noqa: E402
+from snaxc.ir.dart.affine_transform import AffineTransform  # noqa: E402
+
+AF = {}
+
+
+class SchedAccV(SNAXStreamer):
+    def __init__(self, template):
+        SNAXStreamer.__init__(self, StreamerConfiguration([Streamer(StreamerType.Reader, ["n"], [4], [])]))
+        self._template = template
+
+    def get_template(self, op):
+        AF["template_for"] = op
+        return self._template
+
+
+class SchedCtxV:
+    def __init__(self, acc):
+        self.acc = acc
+
+    def get_acc(self, name):
+        return self.acc
+
+
+def scheduler_handler(local):
+    """scheduler() through its contract (scheduler_passes_constraints_contract + scheduler_backtrack_fits_template): the
+    schedule it returns satisfies the extra checks it is GIVEN (default: output stationarity only) - record what it is given"""
+    AF["calls"].append(dict(template=local["template"], schedule=local["schedule"], extra_checks=list(local["extra_checks"]), idx=local["schedule_idx"]))
+    return AF["result"]
+
+
+def flexible_handler(local):
+    AF["flex_calls"].append((local["template"], local["schedule"], list(local["element_sizes"])))
+    return True
+
+
+def bounds_handler(local):
+    return list(AF["bounds"])
+
+
+@contract
+class AutoflowScheduler_contract:
+    """dart.operation -> dart.schedule: ONE scheduler run over the accelerator's template for this op and the op's own
+    (canonicalised) schedule, constrained by output stationarity AND by the memory-access granularity of the operands'
+    element sizes - also when a particular candidate is requested by index; the schedule written into the IR is the one
+    returned (maps, bounds), operands / body / accelerator are kept"""
+    target = "snaxc.transforms.dart.dart_scheduler.AutoflowScheduler.match_and_rewrite"
+    shapes = [dict(idx=i, bits=b) for i in (None, 0, 3) for b in ((8, 8), (8, 32), (64, 64))]
+    native = False
+    total = True
+    permissive = True
+    compare_ret = False
+    modular = {"snaxc.ir.dart.scheduler.scheduler": scheduler_handler,
+               "snaxc.ir.dart.scheduler.is_memory_flexible_enough": flexible_handler,
+               "snaxc.dialects.dart.OperationOp.get_static_pattern_bounds": bounds_handler}
+
+    def args(sh, sym):
+        AF["calls"], AF["flex_calls"], AF["bounds"] = [], [], [16]
+        ident = AffineMap.identity(1)
+        tmpl = Template([TemplatePattern([4], ident), TemplatePattern([4], ident)])
+        # what the scheduler hands back: the op tiled by 4 (a fixed, recognisable answer)
+        tiled = AffineTransform(np.array([[4, 1]]).reshape(1, 2), np.array([0]).reshape(1))
+        AF["result"] = Schedule([SchedulePattern([4, 4], tiled), SchedulePattern([4, 4], tiled)])
+        vals = [mk_memref_value(MemRefType(IntegerType(b), [16], NoneAttr()), [16], None, 0, 0) for b in sh["bits"]]
+        body = Region(Block())
+        op = dart.OperationOp([vals[0]], [vals[1]], ArrayAttr([AffineMapAttr(ident), AffineMapAttr(ident)]), body, "acc")
+        return [op, SchedAccV(tmpl), tmpl, vals, body]
+
+    def run(sh, a):
+        rw = PatternRewriter(a[0])
+        ds.AutoflowScheduler(SchedCtxV(a[1]), sh["idx"]).match_and_rewrite(a[0], rw)
+        return rw.log
+
+    def ensures(sh, a, ret):
+        op, acc, tmpl, vals, body = a
+        calls = AF["calls"]
+        check("exactly one scheduler run", len(calls) == 1)
+        c = calls[0]
+        check("... over the accelerator's template for THIS op", c["template"] is tmpl and AF["template_for"] is op)
+        s = c["schedule"]
+        check("... and the op's own iteration space: one pattern per operand, bounds = the op's static bounds, the op's maps",
+              len(s) == 2 and all(list(p.bounds) == [16] and p.pattern.A.tolist() == [[1]] and p.pattern.b.tolist() == [0] for p in s))
+        checks = c["extra_checks"]
+        check("constraint 1: pure output stationarity is among the checks handed to the scheduler", any(k is sched_mod.is_pure_output_stationary for k in checks))
+        # constraint 2: some check handed over evaluates is_memory_flexible_enough on its arguments with the operands' element sizes
+        t_mark, s_mark = Template([TemplatePattern([2], AffineMap.identity(1))]), Schedule([SchedulePattern([2], AffineMap.identity(1))])
+        for k in checks:
+            if k is not sched_mod.is_pure_output_stationary:
+                k(t_mark, s_mark)
+        want = [b // 8 for b in sh["bits"]]
+        check("constraint 2: memory-access granularity for the operands' element sizes (in bytes) is among the checks - whether or not a schedule index was requested",
+              any(f[0] is t_mark and f[1] is s_mark and f[2] == want for f in AF["flex_calls"]))
+        rep = [e for e in ret if e[0] == "replace_op"]
+        check("the op is replaced by one dart.schedule", len(ret) >= 1 and len(rep) == 1 and rep[0][1] is op and len(rep[0][2]) == 1 and isinstance(rep[0][2][0], dart.ScheduleOp))
+        new = rep[0][2][0]
+        check("the schedule written into the IR is the one the scheduler returned: maps", [m.data.eval([3, 2], [])[0] for m in new.patterns.data] == [14, 14] and len(new.patterns.data) == 2)
+        check("... and bounds", [x.value.data for x in new.bounds.data] == [4, 4])
+        check("operands and accelerator are kept", new.operands[0] is vals[0] and new.operands[1] is vals[1] and new.accelerator == op.accelerator)
+
+    def canary(sh, a, ret):
+        check("canary: the scheduler is never asked", len(AF["calls"]) == 0)
